@@ -41,27 +41,36 @@ func (m ResourceUnits) Add(rhs ResourceUnits) (ResourceUnits, error) {
 	res := m
 
 	if res.CPU != nil {
+		cpu := *res.CPU // do not modify the operand's units
+		res.CPU = &cpu
 		if err := res.CPU.add(rhs.CPU); err != nil {
 			return ResourceUnits{}, err
 		}
-	} else {
-		res.CPU = rhs.CPU
+	} else if rhs.CPU != nil {
+		cpu := *rhs.CPU // do not share the operand's units
+		res.CPU = &cpu
 	}
 
 	if res.Memory != nil {
+		memory := *res.Memory // do not modify the operand's units
+		res.Memory = &memory
 		if err := res.Memory.add(rhs.Memory); err != nil {
 			return ResourceUnits{}, err
 		}
-	} else {
-		res.Memory = rhs.Memory
+	} else if rhs.Memory != nil {
+		memory := *rhs.Memory // do not share the operand's units
+		res.Memory = &memory
 	}
 
 	if res.Storage != nil {
+		storage := *res.Storage // do not modify the operand's units
+		res.Storage = &storage
 		if err := res.Storage.add(rhs.Storage); err != nil {
 			return ResourceUnits{}, err
 		}
-	} else {
-		res.Storage = rhs.Storage
+	} else if rhs.Storage != nil {
+		storage := *rhs.Storage // do not share the operand's units
+		res.Storage = &storage
 	}
 
 	return res, nil
